@@ -474,3 +474,6 @@ print(bad)
 if bad: reproduced(str(bad))
 not_reproduced()
 """
+
+# level text addendum (cases added after the seeded-change rounds)
+LEVEL_TEXT = LEVEL_TEXT + ' Also: a non-append run over a stale longer output, float32 output with two workers, a scalar whitening factor (sync column untouched).'
